@@ -151,11 +151,18 @@ class Flow:
                 # the expression was re-parsed from text (loop iterables): fall back to the function's only
                 # assignment of that name
                 asg = [st for st in ast.walk(frame.fn) if isinstance(st, ast.Assign) and len(st.targets) == 1 and isinstance(st.targets[0], ast.Name) and st.targets[0].id == head]
-                if len(asg) == 1:
-                    ds, vals = [asg[0]], [asg[0].value]
+                if len(asg) >= 1:
+                    ds, vals = list(asg), [a_.value for a_ in asg]
             if len(ds) == 1 and len(vals) == 1 and not any(isinstance(x, ast.Name) and x.id == head for x in ast.walk(vals[0])):
                 base = self.source(vals[0], frame, loops, depth + 1)
                 if base and not base.startswith("const:"):
+                    return ".".join([base] + rest) if rest or not base.startswith("one:") else base
+            elif len(ds) > 1 and len(vals) == len(ds) and not any(isinstance(x, ast.Name) and x.id == head for v_ in vals for x in ast.walk(v_)):
+                # several definitions (a value and its default in a branch): the one that is not a constant
+                bases = {self.source(v_, frame, loops, depth + 1) for v_ in vals}
+                real = {b_ for b_ in bases if b_ and not b_.startswith("const:") and not all(p_[:1].isupper() for p_ in b_.replace("one:", "").split(".")[:1])}
+                if len(real) == 1:
+                    base = real.pop()
                     return ".".join([base] + rest) if rest or not base.startswith("one:") else base
         if head == "self" and frame is not None and "self" in frame.binds and frame.binds["self"] is not None:
             b = frame.binds["self"]
